@@ -67,6 +67,7 @@ type RunConfig struct {
 	StepBound    int64
 	MaxPaths     int64 // safety valve; exceeding it is an unwinding failure
 	SleepSets    bool
+	Solver       string // "" = z3, "cvc5"
 	Sequential   bool // harness is single-goroutine (native replay possible)
 	Params       map[string]int
 }
@@ -109,6 +110,7 @@ type Exec struct {
 	probes     map[string][]probeRec
 	inProbe    bool
 	nsamples   int
+	unitFloats map[*Term]bool
 	vbounds    map[*Term]ival
 	shared     int
 
